@@ -343,7 +343,17 @@ def build_dividend(rng):
     tax = Fraction(rng.randint(0, 1000), 100) if rng.random() < 0.5 else ZERO
     dv = {"date": iso(s), "ticker": tk, "kind": "DIVIDEND", "total": [dstr(amt), "GBP"], "tax": [dstr(tax), "GBP"], "_ev": True}
     var = list(base)
-    var.insert(rng.randint(0, len(var)), dv)
+    # half of the time the dividend line is put right between two lines of one date (its own date set to theirs): a
+    # dividend must not disturb how that day's trades are grouped either
+    same = [i for i in range(1, len(base)) if base[i]["date"] == base[i - 1]["date"]]
+    if same and rng.random() < 0.5:
+        i_ = rng.choice(same)
+        dv["date"] = base[i_]["date"]
+        if rng.random() < 0.6:
+            dv["ticker"] = base[i_]["ticker"]
+        var.insert(i_, dv)
+    else:
+        var.insert(rng.randint(0, len(var)), dv)
     return var
 
 
@@ -364,11 +374,20 @@ def judge_dividend(var, oa, ob, cnt):
     A, B = lc.parse_report(oa["ok"]["report"]), lc.parse_report(ob["ok"]["report"])
     # a line dropped between two same-day SELL lines regroups per-sell-line legs (known finding F16 of
     # C06/C09); there the merged view is compared instead of the bit-exact one
-    regroup = lc.nonconsecutive_sells(var) != lc.nonconsecutive_sells(unmarked(var))
+    regroup = lc.sell_runs(var) != lc.sell_runs(unmarked(var))
     if regroup:
         cnt["dividend_line_between_same_day_sells(merged view compared)"] += 1
     diffs = lc.compare_reports(A, B, exact=not regroup, leg_gains=not regroup, dividends=False,
                                label=("without", "with-dividend"))
+    if regroup and not diffs:
+        exact_diffs = lc.compare_reports(A, B, exact=True, leg_gains=True, dividends=False, label=("without", "with-dividend"))
+        raw = [[(l["rule"], l["acq"], l["qty"]) for l in d["legs"]] for d in lc.all_disposals(A)] != \
+              [[(l["rule"], l["acq"], l["qty"]) for l in d["legs"]] for d in lc.all_disposals(B)]
+        if exact_diffs or raw:
+            viols.append({"clause": "dividend-changes-more-than-dividend-totals",
+                          "signature": "F16:dividend-line-between-same-day-sells-regroups-their-legs",
+                          "detail": "a DIVIDEND line between two same-day SELL lines of one security splits their merged "
+                                    "sale into two runs: per-run legs (and last digits) change, merged legs/costs/totals do not"})
     ty = tax_year_of(s)
     for y in B["years"]:
         ref = next((x for x in A["years"] if x["start_year"] == y["start_year"]), None)
